@@ -153,13 +153,31 @@ func runC09(p *core.Prog, r *core.Report) {
 				return
 			}
 			nRet++
-			s1 := core.Trace(ret.Results[1], 0)
-			has := false
-			for c := range s1.Calls {
-				if c.Name() == "ReadOps" {
-					has = true
+			// on every path: every value that can be returned as the log is the result of ReadOps() (never an
+			// empty or partial substitute chosen by a condition)
+			has := true
+			seenV := map[ssa.Value]bool{}
+			var leaves func(v ssa.Value)
+			leaves = func(v ssa.Value) {
+				v = core.ResolveCell(core.SkipConv(v))
+				if seenV[v] {
+					return
+				}
+				seenV[v] = true
+				switch x := v.(type) {
+				case *ssa.Phi:
+					for _, e := range x.Edges {
+						leaves(e)
+					}
+				case *ssa.Call:
+					if c := core.CalleeOf(x); c == nil || c.Name() != "ReadOps" {
+						has = false
+					}
+				default:
+					has = false
 				}
 			}
+			leaves(ret.Results[1])
 			if !has {
 				okFiles = false
 			}
@@ -174,7 +192,7 @@ func runC09(p *core.Prog, r *core.Report) {
 				okData = false
 			}
 		})
-		r.Check(nRet > 0 && okFiles, "C09.R1", "wrapDeltasAndOps/files←ReadOps", "the bytes destined to the cached-output file of a store module are ReadOps()", "second result does not derive from ReadOps", p.Pos(fn.Pos()))
+		r.Check(nRet > 0 && okFiles, "C09.R1", "wrapDeltasAndOps/files←ReadOps", "the bytes destined to the cached-output file of a store module are ReadOps() on every path (a block without deltas can still carry operations: a delete_prefix matching nothing in a partial store is recorded in DeletedPrefixes)", "the second result can be something else than the result of ReadOps()", p.Pos(fn.Pos()))
 		r.Check(nRet > 0 && okData, "C09.R1", "wrapDeltasAndOps/data←GetDeltas", "the bytes handed to downstream modules are the marshalled deltas of the block", "first result does not derive from GetDeltas", p.Pos(fn.Pos()))
 	})
 
